@@ -666,3 +666,249 @@ def c10_all():
                                 c = c10_case(ti, ai, bound, gl, fi, B, B2)
                                 if c is not None:
                                     yield c
+
+
+# ---------------------------------------------------------------------------------------------------------------
+# C10 / C09: the macro pipe `x ||> f` (compile-time expansion in convert_pronoun.rs: convert_placeholder,
+# convert_macro_pipe, substitute_macro_arg). Programs are rendered from NAMELESS skeletons, so every rendering of one
+# skeleton (any binder names that resolve lexically to the same binders, explicit macro lambdas or the `_` sugar) is the
+# same program up to renaming and must behave like the skeleton's manual expansion.
+#
+#   Node("hole", k)               the splice `$<binder k>`
+#   Node("spipe", k, arg, body)   arg ||> (|<k>| `{ body })            or, as sugar,  arg ||> f(.., _, ..)
+#   Node("smapp", k, arg, body)   $((|<k>| `{ body })(`{ arg }))       a macro lambda that is NOT piped
+
+def _src_pipem(n, kn, ind, prec):
+    arg, fun = n.a[0], n.a[1]
+    chain = len(n.a) > 2 and n.a[2] == "chain"
+    s = coregen.src(arg, kn, ind)
+    if arg.kind == "pipem" and chain:
+        s = s[1:-1]                  # a ||> f ||> g   (left associative)
+    elif arg.kind not in ("lit", "var", "now", "call", "mem", "pipem", "splice"):
+        s = "(" + s + ")"
+    return f"({s} ||> {coregen.src(fun, kn, ind)})"
+
+
+def _src_mlam(n, kn, ind, prec):
+    return f"(|{', '.join(kn.name(p) for p in n.a[0])}| {coregen.src(n.a[1], kn, ind)})"
+
+
+coregen.EXT_SRC.update({"pipem": _src_pipem, "mlam": _src_mlam, "ph": lambda n, kn, ind, prec: "_"})
+coregen.EXT_SX.update({
+    "pipem": lambda n: f"(pipem {coregen.sx(n.a[0])} {coregen.sx(n.a[1])})",
+    "mlam": lambda n: f"(mlam ({' '.join(n.a[0])}) {coregen.sx(n.a[1])})",
+    "ph": lambda n: "(ph)",
+})
+
+LAMBDA_ARG = "__lambda_arg_%d"
+
+
+def _call(f, *args):
+    return Node("call", f, list(args), 0)
+
+
+def _h(k):
+    return Node("hole", k)
+
+
+def _P(k, arg, body):
+    return Node("spipe", k, arg, body)
+
+
+def _M(k, arg, body):
+    return Node("smapp", k, arg, body)
+
+
+def pipe_skeletons():
+    L, now = _l, Node("now")
+    memnow = Node("mem", Node("now"), 0)
+    return [
+        ("single", _P(0, L("3.0"), _call("subf", _h(0), L("2.0")))),
+        ("single-2nd", _P(0, now, _call("subf", L("2.0"), _h(0)))),
+        ("single-twice", _P(0, _b("add", now, L("1.0")), _b("sub", _b("mul", _h(0), _h(0)), L("1.0")))),
+        ("body-same-pos", _P(0, L("3.0"), _call("subf", _h(0), _P(1, L("10.0"), _call("mulf", _h(1), L("2.0")))))),
+        ("body-diff-pos", _P(0, L("3.0"), _call("subf", _h(0), _P(1, L("10.0"), _call("subf", L("2.0"), _h(1)))))),
+        ("body-in-1st-arg", _P(0, now, _call("subf", _P(1, L("10.0"), _call("subf", L("2.0"), _h(1))), _h(0)))),
+        ("body-inner-uses-outer", _P(0, L("3.0"), _call("subf", _h(0), _P(1, L("10.0"), _call("subf", _h(1), _h(0)))))),
+        ("arg-side", _P(0, _P(1, L("10.0"), _call("subf", _h(1), L("1.0"))), _call("mulf", _h(0), L("2.0")))),
+        ("arg-side-2nd", _P(0, _P(1, now, _call("subf", L("1.0"), _h(1))), _call("subf", L("2.0"), _h(0)))),
+        ("chain", Node("spipe", 0, _P(1, L("10.0"), _call("subf", _h(1), L("1.0"))), _call("mulf", _h(0), L("2.0")), "chain")),
+        ("chain3", Node("spipe", 0, Node("spipe", 1, _P(2, now, _call("addf", _h(2), L("1.0"))), _call("subf", L("7.0"), _h(1)), "chain"),
+                        _call("mulf", _h(0), L("2.0")), "chain")),
+        ("triple", _P(0, L("3.0"), _call("addf", _h(0), _P(1, L("10.0"), _call("mulf", _h(1), _P(2, now, _call("subf", _h(2), L("0.5")))))))),
+        ("triple-uses", _P(0, L("3.0"), _call("addf", _h(0), _P(1, L("10.0"), _call("mulf", _h(1), _P(2, now, _call("subf", _h(2), _h(0)))))))),
+        ("siblings", _P(0, now, _call("subf", _P(1, L("10.0"), _call("mulf", _h(1), L("2.0"))), _P(2, L("5.0"), _call("addf", _h(2), _h(0)))))),
+        ("both-sides", _P(0, _P(1, L("4.0"), _call("subf", _h(1), L("1.0"))), _call("subf", _h(0), _P(2, L("10.0"), _call("mulf", _h(2), L("2.0")))))),
+        ("stateful", _P(0, memnow, _call("subf", _h(0), _P(1, now, _call("mulf", _h(1), L("2.0")))))),
+        ("let-in-body", _P(0, L("3.0"), Node("let", "t", _b("mul", _h(0), L("2.0")), _call("subf", _v("t"), _P(1, L("10.0"), _call("mulf", _h(1), _v("t"))))))),
+        ("inner-macro-lambda", _P(0, L("3.0"), _call("addf", _h(0), _M(1, L("2.0"), _call("subf", _h(1), L("1.0")))))),
+        ("inner-macro-lambda-uses", _P(0, L("3.0"), _call("addf", _h(0), _M(1, now, _call("subf", _h(1), _h(0)))))),
+        ("pipe-in-macro-lambda", _M(0, L("3.0"), _call("subf", _h(0), _P(1, L("10.0"), _call("mulf", _h(1), L("2.0")))))),
+        ("macro-lambda-arg", _P(0, _M(1, L("2.0"), _call("subf", _h(1), L("1.0"))), _call("mulf", _h(0), L("2.0")))),
+    ]
+
+
+def _sk_binders(n, acc):
+    if n.kind in ("spipe", "smapp"):
+        acc.append((n.a[0], n.kind))
+    for _, c in coregen.children(n):
+        _sk_binders(c, acc)
+    return acc
+
+
+def _sugar_pos(n):
+    """argument position of the placeholder if pipe n can be written with `_`: its body is a call with exactly one
+    direct argument that is its hole, the hole occurring nowhere else"""
+    body = n.a[2]
+    if n.kind != "spipe" or body.kind != "call":
+        return None
+    pos = [i for i, x in enumerate(body.a[1]) if x.kind == "hole" and x.a[0] == n.a[0]]
+    if len(pos) != 1:
+        return None
+    others = [x for i, x in enumerate(body.a[1]) if i != pos[0]]
+    if any(_mentions_hole(x, n.a[0]) for x in others):
+        return None
+    return pos[0]
+
+
+def _mentions_hole(n, k):
+    if n.kind == "hole" and n.a[0] == k:
+        return True
+    return any(_mentions_hole(c, k) for _, c in coregen.children(n))
+
+
+def pipe_render(sk, naming, sugar):
+    """skeleton -> staged tree; naming: binder id -> name; sugar: set of binder ids written with `_`"""
+    def go(n):
+        if n.kind == "hole":
+            return Node("splice", _v(naming[n.a[0]]))
+        if n.kind == "spipe":
+            k, arg, body = n.a[0], n.a[1], n.a[2]
+            extra = list(n.a[3:])
+            if k in sugar:
+                pos = _sugar_pos(n)
+                fun = Node("call", body.a[0], [Node("ph") if i == pos else go(x) for i, x in enumerate(body.a[1])], 0)
+            else:
+                fun = Node("mlam", [naming[k]], Node("quote", go(body)))
+            return Node("pipem", go(arg), fun, *extra)
+        if n.kind == "smapp":
+            k, arg, body = n.a[0], n.a[1], n.a[2]
+            return Node("splice", Node("app", Node("mlam", [naming[k]], Node("quote", go(body))), [Node("quote", go(arg))]))
+        return _map_children(n, go)
+    return go(sk)
+
+
+def pipe_manual(sk):
+    """the hand-written expansion: every hole replaced by its binder's (expanded) argument"""
+    def go(n, env):
+        if n.kind == "hole":
+            return env[n.a[0]]
+        if n.kind in ("spipe", "smapp"):
+            e2 = dict(env)
+            e2[n.a[0]] = go(n.a[1], env)
+            return go(n.a[2], e2)
+        return _map_children(n, lambda c: go(c, env))
+    return go(sk, {})
+
+
+def pipe_class(sk, naming, sugar):
+    """ok | invalid (the names do not resolve to the intended binders: another program) | S5 (a generated binder
+    `__lambda_arg_<i>` of the `_` sugar captures a user splice of that name) | S6 (a non-piped macro lambda inside a piped
+    body binds the name of the pipe's binder: substitute_macro_arg does not know binders)"""
+    cls = ["ok"]
+
+    def eff(n):
+        k = n.a[0]
+        return LAMBDA_ARG % _sugar_pos(n) if k in sugar else naming[k]
+
+    def go(n, stack):
+        if n.kind == "hole":
+            k = n.a[0]
+            own = [i for i, b in enumerate(stack) if b.a[0] == k][-1]
+            for b in stack[own + 1:]:
+                if eff(b) == eff(stack[own]):
+                    cls.append("S5" if b.a[0] in sugar else "invalid")
+            return
+        if n.kind in ("spipe", "smapp"):
+            go(n.a[1], stack)
+            if n.kind == "smapp" and _mentions_hole(n.a[2], n.a[0]):
+                for b in stack:
+                    if b.kind == "spipe" and eff(b) == eff(n):
+                        cls.append("S6")
+            go(n.a[2], stack + [n])
+            return
+        for _, c in coregen.children(n):
+            go(c, stack)
+    go(sk, [])
+    for c in ("invalid", "S5", "S6"):
+        if c in cls:
+            return c
+    return "ok"
+
+
+HELPERS = [Fn("addf", ["x", "y"], [F, F], F, _b("add", _v("x"), _v("y")), False, False),
+           Fn("subf", ["x", "y"], [F, F], F, _b("sub", _v("x"), _v("y")), False, False),
+           Fn("mulf", ["x", "y"], [F, F], F, _b("mul", _v("x"), _v("y")), False, False)]
+
+
+def _pipe_prog(body):
+    cnt = [0]
+    return SProg([("fn", f) for f in HELPERS] + [("fn", Fn("dsp", [], [], F, resite(body, cnt), False, True))])
+
+
+def pipe_variants():
+    """every rendering of every skeleton: dict(shape, naming, sugar, cls, sp = rendered program, canon = the rendering with
+    distinct fresh names and explicit macro lambdas, man = manual expansion (plain Prog))"""
+    import itertools
+    pool = ["a", "b", LAMBDA_ARG % 0, LAMBDA_ARG % 1]
+    for shape, sk in pipe_skeletons():
+        bs = _sk_binders(sk, [])
+        ids = [k for k, _ in bs]
+        sugarable = [k for k, kind in bs if kind == "spipe" and _sugar_pos(_find_binder(sk, k)) is not None]
+        canon_naming = {k: "p%d" % k for k in ids}
+        canon = _pipe_prog(pipe_render(sk, canon_naming, set()))
+        man = _pipe_prog(pipe_manual(sk)).prog
+        seen = set()
+        for r in range(len(sugarable) + 1):
+            for sug in itertools.combinations(sugarable, r):
+                expl = [k for k in ids if k not in sug]
+                for names in itertools.product(pool, repeat=len(expl)):
+                    naming = dict(zip(expl, names))
+                    cls = pipe_class(sk, naming, set(sug))
+                    if cls == "invalid":
+                        continue
+                    sp = _pipe_prog(pipe_render(sk, naming, set(sug)))
+                    s = sp.src()
+                    if s in seen:
+                        continue
+                    seen.add(s)
+                    yield dict(shape=shape, naming=naming, sugar=sorted(sug), cls=cls, sp=sp, canon=canon, man=man)
+
+
+def _find_binder(n, k):
+    if n.kind in ("spipe", "smapp") and n.a[0] == k:
+        return n
+    for _, c in coregen.children(n):
+        r = _find_binder(c, k)
+        if r is not None:
+            return r
+    return None
+
+
+def vm_upvalue_tuple_risk(p):
+    """core-language VM defect met by C09's generator after coregen learned more forms (reported, C01's matter): a closure
+    that builds a tuple of three or more components whose FIRST component is a captured variable
+    (`|p| { let (x, y, z) = (a, g, 100.0) … }` with `a` a parameter of the enclosing function) reads that component as
+    stale/uninitialised memory on the VM on some samples (WASM and the reference semantics agree). The value is not even
+    deterministic, so staged and manual runs cannot be compared: such programs are skipped (counted)."""
+    def go(n, inside, bound):
+        if n.kind == "lam":
+            return go(n.a[1], True, set(n.a[0]))
+        if inside and n.kind == "tup" and len(n.a[0]) >= 3 and n.a[0][0].kind == "var" and n.a[0][0].a[0] not in bound:
+            return True
+        if n.kind == "let":
+            return go(n.a[1], inside, bound) or go(n.a[2], inside, bound | {n.a[0]})
+        if n.kind == "lett":
+            return go(n.a[1], inside, bound) or go(n.a[2], inside, bound | set(n.a[0]))
+        return any(go(c, inside, bound) for _, c in coregen.children(n))
+    return any(go(f.body, False, set()) for f in p.fns + [p.dsp]) or any(go(e, False, set()) for _, e in p.globals)
